@@ -560,6 +560,12 @@ func judge(run *ev.Run, st *stats, p *program, r *progResult, nb *nativeBatch) {
 		if b.leftover > 0 {
 			run.Obs("calls_with_stale_items_at_catch", 1)
 		}
+		if strings.Contains(b.fault, stepBoundMsg) {
+			run.Obs("vm_step_bound_hits", 1)
+			if b.leftover > 0 {
+				run.Obs("vm_step_bound_hits_with_stale_items_at_catch", 1)
+			}
+		}
 		if ci == 0 {
 			run.Obs("first_calls_on_fresh_package_state", 1)
 		}
@@ -598,6 +604,14 @@ func genObs(k string) string {
 		return "tail_procedure_call_statements"
 	case k == "recover-after-recovered-panic":
 		return "recover_after_recovered_panic_templates"
+	case k == "array-template":
+		return "array_templates"
+	case k == "array-copy-by-assignment" || k == "array-element-copied" || k == "array-element-assigned" || k == "array-passed-by-value" || k == "array-range-value-written":
+		return "array_copies_written_and_compared"
+	case k == "guarded-operand-as-value":
+		return "guarded_boolean_operands_used_as_values"
+	case strings.HasPrefix(k, "guarded-operand:") && k != "guarded-operand:nested-or-mixed":
+		return "guarded_boolean_operands"
 	case k == "lambda":
 		return "function_literals"
 	case k == "lambda-procedure":
